@@ -22,6 +22,8 @@ THEOREMS = [
     "Privacy.parseRule_ok_iff", "Privacy.parseRule_colons", "Privacy.effective_cli_wins", "Privacy.effective_file_only",
     "Privacy.precedence_effective", "Privacy.visPure_meaning", "Privacy.hidden_propagates",
     "Privacy.coherent_of_wellNamed", "Privacy.cache_transparent_moves_wellNamed",
+    "Privacy.kindNone_hidden", "Privacy.bare_underscores", "Privacy.cache_survives_rule_change", "Privacy.empty_pattern_and_alias_accepted",
+    "Glob.spec_empty", "Glob.spec_triple_star", "Glob.set_conventions",
     "Privacy.default_meaning", "Privacy.exact_wins", "Privacy.last_pattern_wins", "Privacy.default_applies",
     "Privacy.precedence_partial", "Privacy.precedence_counterexample",
     "Privacy.parseRule_wellFormed", "Privacy.cli_rules_wellFormed", "Privacy.precedence_cli",
@@ -947,6 +949,9 @@ CORPUS_GLOB = [
     ("**.__*__", ["m.C.__init__", "__init__", "m.__x", "m.C.__a__.b"]), ("**.__init__", ["m.C.__init__", "__init__", "m.x__init__"]),
     # name edges: empty components, leading / trailing dots
     ("*", ["", "a", ".", "a.b"]), ("*.*", [".", "a.", ".a", "a.b", "a"]), ("**.", ["a.", ".", "a"]), (".**", [".a", ".", "a"]),
+    # reviewer's list (pinned by Glob.spec_triple_star / set_conventions / spec_empty)
+    ("***", ["", "a", "a.b.c"]), ("[a&&b]", ["a", "&", "b", "c"]), ("[a||b]", ["|", "c"]), ("[a~~b]", ["~", "c"]), ("[a-c]", ["b", "-"]),
+    ("[a-]", ["-"]), ("", ["", "a"]),
     ("a.**", ["a.", "a", "a.b.c", "ab.c"]), ("a.*", ["a.", "a", "a.b", "a.b.c"]), ("***", ["a.b"]), ("a\nb", ["a\nb"]), ("a", ["a\n"]),
 ]
 
@@ -968,6 +973,9 @@ CORPUS_PRIVACY = [
     # superseded definitions (cb98646) and a cache keyed by the wrong thing
     (["HIDDEN:p.d.K 0"], [("v", "p.d.K 0.m"), ("c", "p.d.K 0.m"), ("v", "p.d.K.m")]), ([], [("v", "p.d.K.f 0"), ("v", "p.d.K.f"), ("v", "p.d._g 0")]),
     (["HIDDEN:p.m.C"], [("c", "p.m.C"), ("c", "p._m.C"), ("c", "p.m.C.f"), ("c", "p._m.C.f"), ("c", "p.m.C")]),
+    # reviewer's list: kind None is HIDDEN whatever the rules (Privacy.kindNone_hidden); empty pattern never applies
+    (["PUBLIC:p.m.k"], [("c", "p.m.k"), ("v", "p.m.k"), ("c", "p.m.k")]), (["PUBLIC:**", "PUBLIC:p.m.k"], [("c", "p.m.k"), ("p", "p.m.k")]),
+    (["HIDDEN:", "visible:p.m._C"], [("c", "p"), ("c", "p.m._C")]),
     # the default
     ([], [("c", n) for n in ("p.m.C._", "p.m.C.__", "p.m.C.___", "p.m.C._a_", "p.m.C.a__", "p.m.C.__a_", "p.m.C.__init__", "p.m.C.__x", "p.m.k")]),
 ]
@@ -1010,6 +1018,27 @@ def run_corpus(ctx: Ctx) -> None:
         ctx.count("corpus:privacy")
         for f in r["fails"]:
             ctx.fail(*f)
+    # observations pinned by theorems (not judged by the oracle): FutureWarning of re on set-operator look-alikes;
+    # the cache survives a change of options.privacy made through the API after the first query
+    import re as _re
+    from pydoctor import qnmatch as _q
+    for p in ("[a&&b]", "[a||b]", "[a~~b]", "[a--b-]x"):
+        with warnings.catch_warnings(record=True) as w:
+            warnings.simplefilter("always")
+            try:
+                _re.compile(_q.translate(p) + "(?#c13)")   # a text re has not cached yet
+            except _re.error:
+                pass
+        ctx.count("observation:re-FutureWarning" if any(issubclass(x.category, FutureWarning) for x in w) else "observation:re-no-warning")
+    system, objs = build_system(["HIDDEN:p.m.C"], False)
+    first = objs["p.m.C"].privacyClass.name
+    from pydoctor import options as _o
+    system.options.privacy = _o._convert_privacy(["PUBLIC:p.m.C"])
+    second = objs["p.m.C"].privacyClass.name
+    ctx.count("observation:cache-survives-rule-change" if (first, second) == ("HIDDEN", "HIDDEN") else "observation:cache-follows-rule-change")
+    ctx.traces_validated += 1
+    if (first, second) != ("HIDDEN", "HIDDEN"):   # Privacy.cache_survives_rule_change no longer describes the code
+        ctx.disagree("corpus-privacy", {"rules": ["HIDDEN:p.m.C", "then options.privacy = PUBLIC:p.m.C"]}, "HIDDEN HIDDEN", f"{first} {second}")
     ctx.compare("corpus-privacy", [r["line"] for r in rs + ms], [r["impl"] for r in rs + ms],
                 [{"rules": r["rules"], "queries": r["queries"]} for r in rs] + [r["payload"] for r in ms])
 
